@@ -23,6 +23,8 @@ pub enum Op {
     SetPolicy(PolDesc),
     Json(usize),
     OwnedJson,
+    /// `shrink_buffer_to_fit()` on set j; observes `len()` and `is_empty()`
+    Shrink(usize),
 }
 
 impl Op {
@@ -47,6 +49,7 @@ impl Op {
             }
             "P" => Op::SetPolicy(PolDesc::parse(rest)?),
             "j" => Op::Json(n(rest)?),
+            "h" => Op::Shrink(n(rest)?),
             "y" if rest.is_empty() => Op::OwnedJson,
             _ => return None,
         })
@@ -64,6 +67,7 @@ impl Op {
             Op::SeekTo(l, b) => format!("K{}.{}", l, b),
             Op::SetPolicy(p) => format!("P{}", p.show()),
             Op::Json(j) => format!("j{}", j),
+            Op::Shrink(j) => format!("h{}", j),
             Op::OwnedJson => "y".into(),
         }
     }
@@ -325,6 +329,13 @@ pub fn run_fasta(c: &Case) -> String {
                     }
                 })
             }
+            Op::Shrink(j) => {
+                let set = &mut sets[*j];
+                guarded(|| {
+                    set.shrink_buffer_to_fit();
+                    format!("H{}{}", set.len(), if set.is_empty() == (set.len() == 0) { "" } else { "!" })
+                })
+            }
             Op::Dump(j) => {
                 let set = &sets[*j];
                 guarded(|| {
@@ -500,6 +511,13 @@ pub fn run_fastq(c: &Case) -> String {
                         Some(Err(e)) => fq_err(&e),
                         Some(Ok(())) => format!("S{}", set.len()),
                     }
+                })
+            }
+            Op::Shrink(j) => {
+                let set = &mut sets[*j];
+                guarded(|| {
+                    set.shrink_buffer_to_fit();
+                    format!("H{}{}", set.len(), if set.is_empty() == (set.len() == 0) { "" } else { "!" })
                 })
             }
             Op::Dump(j) => {
